@@ -342,9 +342,9 @@ MUTANTS = [
     dict(id="C15-M2", file=_B, old="        self.counter = 0\n        points = self.sampler.sample_points", new="        self.counter = 1\n        points = self.sampler.sample_points", rule="R-C15-1", what="reset to 1"),
     dict(id="C15-M3", file=_B, old="        self.counter += 1\n        if self.created_points and self.counter < self.resample_interval:\n            self._change_device(device=device)\n            return self.created_points",
          new="        if self.created_points and self.counter < self.resample_interval:\n            self.counter += 1\n            self._change_device(device=device)\n            return self.created_points", rule="R-C15-1", what="increment after the test"),
-    dict(id="C15-M4", file=_R, old="filter_tensor = unreduced_loss < min_l + (max_l - min_l) * self.resample_ratio", new="filter_tensor = unreduced_loss > min_l + (max_l - min_l) * self.resample_ratio", rule="R-C15-2", what=">"),
+    dict(id="C15-M4", file=_R, old="                unreduced_loss < min_l + (max_l - min_l) * self.resample_ratio", new="                unreduced_loss > min_l + (max_l - min_l) * self.resample_ratio", rule="R-C15-2", what=">"),
     dict(id="C15-M5", file=_R, old="filter_tensor = unreduced_loss < min_l + (max_l - min_l) * torch.rand_like(", new="filter_tensor = unreduced_loss >= min_l + (max_l - min_l) * torch.rand_like(", rule="R-C15-2", what=">="),
-    dict(id="C15-M6", file=_R, old="filter_tensor = unreduced_loss < min_l + (max_l - min_l) * self.resample_ratio", new="filter_tensor = unreduced_loss < max_l - (max_l - min_l) * self.resample_ratio", rule="R-C15-2", what="threshold from the top"),
+    dict(id="C15-M6", file=_R, old="                unreduced_loss < min_l + (max_l - min_l) * self.resample_ratio", new="                unreduced_loss < max_l - (max_l - min_l) * self.resample_ratio", rule="R-C15-2", what="threshold from the top"),
     dict(id="C15-M7", file=_B, old="        self.created_points = points\n        return points", new="        return points", rule="R-C15-1", what="miss does not cache"),
     dict(id="C15-M9", file=_R, old="            return rand_points.join(repeated_params)\n", new="            self._last = rand_points.join(repeated_params)\n            return self._last\n", rule="R-C15-1b", what="draw cached on a non-static sampler"),
     dict(id="C15-M8", file=_B, old="        self.resample_interval = resample_interval\n        return self", new="        self.resample_interval = resample_interval\n        self.created_points = None\n        return self", rule="R-C15-1", what="re-staticising drops the cache"),
@@ -352,5 +352,5 @@ MUTANTS = [
 TWINS = [
     dict(id="C15-T1", file=_B, old="        self.counter += 1\n        if self.created_points", new="        self.counter = self.counter + 1\n        if self.created_points", what="explicit increment"),
     dict(id="C15-T2", file=_B, old="self.counter < self.resample_interval", new="not (self.counter >= self.resample_interval)", what="negated comparison"),
-    dict(id="C15-T3", file=_R, old="filter_tensor = unreduced_loss < min_l + (max_l - min_l) * self.resample_ratio", new="threshold = (max_l - min_l) * self.resample_ratio + min_l\n            filter_tensor = threshold > unreduced_loss", what="threshold temporary, flipped sides"),
+    dict(id="C15-T3", file=_R, old="            filter_tensor = (\n                unreduced_loss < min_l + (max_l - min_l) * self.resample_ratio\n            )", new="            threshold = (max_l - min_l) * self.resample_ratio + min_l\n            filter_tensor = threshold > unreduced_loss", what="threshold temporary, flipped sides"),
 ]
